@@ -300,7 +300,7 @@ def statsGroupOp (o : ParseOpts) (t : Table) (isAnd : Bool) (value : String) (st
         else
           let keep := stack.take (stack.length - k)
           match statsAsFilters (stack.drop (stack.length - k)) with
-          | none => throw (.unsupported "aggregate inside a stats group")
+          | none => throw (.bad "only counters can be combined")
           | some fs => pure (keep ++ [.counter (.grp isAnd fs false)])
 
 /-! ### other headers -/
